@@ -107,6 +107,7 @@ pub open spec fn spec_search_len(len: int) -> int { if len < 8192 { len } else {
 impl<'a> Multiboot2Header<'a> {
 //@extract multiboot2-header/src/header.rs :: impl<'a> Multiboot2Header<'a> :: fn find_header
 //@  ret r
+//@  optional
 //@  closure 0: |vals: &[u8]| -> (b: bool) requires vals@.len() == 4 ensures b == (le32(vals@, 0) == MAGIC)
 //@  closure 1: |bytes: &[u8]| -> (v: u32) requires bytes@.len() == 4 ensures v == le32(bytes@, 0)
 //@  closure 2: |end: usize| -> (o: Option<&[u8]>) ensures (magic_index <= end <= buffer@.len()) ==> o is Some && o->Some_0@ == buffer@.subrange(magic_index as int, end as int), !(magic_index <= end <= buffer@.len()) ==> o is None
